@@ -143,7 +143,8 @@ static void run_case(long idx)
     uint8_t* m; size_t n; g_kind = mutate(&r, it, &m, &n); g_origin = it->origin;
     if (!strncmp(it->origin, "legacy", 6) && n > 12 && vr_chance(&r, 1, 2)) {
         /* legacy frame layouts (v0.5-v0.7): descriptor / window byte after the magic, 3-byte block headers (type in the top 2 bits, 19..22-bit size) */
-        switch (vr_u(&r, 4)) {
+        switch (vr_u(&r, 5)) {
+        case 4: { m[4] = vr_chance(&r, 1, 2) ? (uint8_t)vr_u(&r, 256) : (uint8_t)((m[4] & 0x1C) | vr_u(&r, 4) | (vr_u(&r, 4) << 6) | (vr_u(&r, 2) << 5)); size_t const keep = 5 + vr_u(&r, 18); if (keep < n) n = keep; g_kind = "legacy:descriptor+cut-inside-the-header"; break; }   /* header longer than what is supplied */
         case 0: m[4] = (uint8_t)vr_u(&r, 256); m[5] = (uint8_t)(vr_chance(&r, 1, 2) ? vr_u(&r, 16) : vr_u(&r, 256)); g_kind = "legacy:descriptor/window"; break;
         case 1: { size_t const o = 5 + vr_u(&r, 6); m[o] = (uint8_t)((vr_u(&r, 3) << 6) | 7); m[o + 1] = 0xFF; m[o + 2] = (uint8_t)(0xF0 | vr_u(&r, 16)); g_kind = "legacy:block-header-max-size"; break; }
         case 2: { size_t const o = 5 + vr_u(&r, 6); m[o] = (uint8_t)((vr_u(&r, 4) << 6) | vr_u(&r, 8)); m[o + 1] = (uint8_t)vr_u(&r, 256); m[o + 2] = (uint8_t)vr_u(&r, 256); g_kind = "legacy:block-header"; break; }
@@ -194,6 +195,16 @@ static void run_case(long idx)
         v_stat("multi_ddict_tables", 1); v_statmax("multi_ddict_table_max_entries", K);
         ZSTD_freeDCtx(dm); for (int i = 0; i < K; i++) ZSTD_freeDDict(dds[i]); free(dds); free(ids); free(db);
     }
+    if (vr_chance(&r, 1, 3)) {   /* decoder living in caller-provided memory that ends at a guard page: sized for streaming with window W0, or for one-shot use only */
+        size_t const w0 = (size_t)1 << vr_range(&r, 10, 20); int const oneShotOnly = vr_chance(&r, 1, 4);
+        size_t wsz = oneShotOnly ? ZSTD_estimateDCtxSize() : ZSTD_estimateDStreamSize(w0 + vr_u(&r, 3) * 128); wsz = (wsz + 7) & ~(size_t)7;
+        gbuf ws = gb_alloc(wsz, 0); ZSTD_DCtx* sd = ZSTD_initStaticDCtx(ws.p, wsz);
+        if (sd) { g_ep = oneShotOnly ? "static DCtx (one-shot size)" : "static DStream (sized for a window)";
+            {   gbuf o = gb_alloc(cap, 0); size_t const ret = ZSTD_decompressDCtx(sd, o.p, cap, src.p, n); chk(ret, cap); canary(&o); gb_free(&o); }
+            ZSTD_DCtx_reset(sd, ZSTD_reset_session_only); stream_decode(sd, src.p, n, cap, &r, 0);
+            ZSTD_DCtx_reset(sd, ZSTD_reset_session_only); stream_decode(sd, src.p, n, cap, &r, 1);
+            v_stat("static_dctx_runs", 1); }
+        canary(&ws); gb_free(&ws); }
     {   g_ep = "ZSTD_decompressContinue"; ZSTD_DCtx_reset(d, ZSTD_reset_session_and_parameters); ZSTD_decompressBegin(d); gbuf o = gb_alloc(cap, 0); size_t ip = 0, op = 0; long guard = 0;
         for (;;) { size_t const need = ZSTD_nextSrcSizeToDecompress(d); if (need == 0 || need > n - ip) break; size_t const ret = ZSTD_decompressContinue(d, o.p + op, cap - op, src.p + ip, need); if (ZSTD_isError(ret)) break; if (ret > cap - op) { v_viol("returned-size-exceeds-capacity", "entry=%s", g_ep); break; } ip += need; op += ret; if (++guard > 3000000) { v_viol("bufferless-too-many-steps", "n=%zu", n); break; } }
         canary(&o); gb_free(&o); }
